@@ -4,7 +4,10 @@
   The theorems relate the executable model VModel.FedCheck (what the driver runs against the Go code)
   to the specification VModel.FedCheckSpec, for EVERY signature oracle, every `AuthEvents`-like
   provider object with idempotent `AddEvent` (`AddIdem`), every auth predicate `allowedBy`, and every
-  EventProvider satisfying the contract `ProvOK` ("answers with the requested event or nothing").
+  EventProvider satisfying the contract `ProvOK` ("answers with the requested event or nothing") — for
+  VerifyEventAuthChain: `TableLike` (single-ID requests answered exactly from a table, batch answers possibly
+  leaving events out).  Statements after the repairs of findings R1 (state-at-event check against the WHOLE
+  state), R2 (every event the provider hands out is verified) and R3 (events are dropped one by one).
 -/
 import VModel.FedCheck
 import VModel.FedCheckSpec
@@ -157,18 +160,6 @@ theorem mapOfEvents_lookup (l : List Event) (id : Bytes) :
   unfold mapOfEvents lastWithID
   rw [← List.map_reverse, lookup_map_events]
 
-theorem sigFail_contains {P} (O : Oracles P) (all : List Event) (id : Bytes) :
-    (sigFailIDs O all).contains id = all.any (fun e => e.eventID == id && !O.sigOk e) := by
-  unfold sigFailIDs
-  rw [Bool.eq_iff_iff]
-  simp only [List.contains_iff_mem, List.mem_map, List.mem_filter, List.any_eq_true, Bool.and_eq_true, beq_iff_eq,
-    Bool.not_eq_true']
-  constructor
-  · rintro ⟨e, ⟨he, hs⟩, hid⟩
-    exact ⟨e, he, hid, hs⟩
-  · rintro ⟨e, he, hid, hs⟩
-    exact ⟨e, ⟨he, hs⟩, hid⟩
-
 theorem find?_ext {α} (l : List α) (p q : α → Bool) (h : ∀ x ∈ l, p x = q x) : l.find? p = l.find? q := by
   induction l with
   | nil => rfl
@@ -176,36 +167,21 @@ theorem find?_ext {α} (l : List α) (p q : α → Bool) (h : ∀ x ∈ l, p x =
     simp only [List.find?_cons, h x List.mem_cons_self]
     rw [ih (fun y hy => h y (List.mem_cons_of_mem _ hy))]
 
+/-- the lookup table of CheckStateResponse binds an ID to the last event of the response that carries it and
+    whose own signature verified -/
 theorem verifiedMap_lookup {P} (O : Oracles P) (all : List Event) (id : Bytes) :
     (verifiedMap O all).lookup id = (verified O all id).map some := by
   unfold verifiedMap verified
   rw [← List.map_reverse, lookup_map_events, ← List.filter_reverse, List.find?_filter]
-  cases hany : all.any (fun e => e.eventID == id && !O.sigOk e)
-  · simp only [Bool.false_eq_true, if_false, lastWithID]
-    congr 1
-    apply find?_ext
-    intro e _
-    cases hid : (e.eventID == id)
-    · simp
-    · have : e.eventID = id := by simpa using hid
-      rw [this, sigFail_contains, hany]
-      rfl
-  · simp only [if_true, Option.map_none]
-    rw [Option.map_eq_none_iff, List.find?_eq_none]
-    intro e _
-    cases hid : (e.eventID == id)
-    · simp
-    · have : e.eventID = id := by simpa using hid
-      rw [this, sigFail_contains, hany]
-      simp
+  congr 1
+  apply find?_ext
+  intro e _
+  cases h1 : O.sigOk e <;> cases h2 : (e.eventID == id) <;> simp [h1, h2]
 
 theorem verified_mem {P} (O : Oracles P) (all : List Event) (id : Bytes) (e : Event) (h : verified O all id = some e) : e ∈ all := by
   unfold verified at h
-  split at h
-  · cases h
-  · unfold lastWithID at h
-    have := List.mem_of_find?_eq_some h
-    simpa using this
+  have := List.mem_of_find?_eq_some h
+  simpa using this
 
 theorem lastWithID_mem (l : List Event) (id : Bytes) (e : Event) (h : lastWithID l id = some e) : e ∈ l := by
   unfold lastWithID at h
@@ -246,10 +222,10 @@ theorem caVerdict_of_lookup {P} (O : Oracles P) (prov : Option EventProvider) (m
 /-! ## The auth pass over all events -/
 
 theorem authLoop_contract {P} (O : Oracles P) (hidem : AddIdem O) (prov : Option EventProvider) (hprov : ProvOK prov) (n : Nat)
-    (es : List Event) (m : IdMap) (log : Log) (failed : List Bytes) :
-    ∃ m' log', authLoop O prov (n + 2) es m log failed =
-        some (failed ++ (es.filter (fun e => caVerdict O prov e m != .ok)).map (·.eventID), m', log') ∧ Ext prov (fun _ => True) m m' := by
-  induction es generalizing m log failed with
+    (es : List Event) (m : IdMap) (log : Log) :
+    ∃ m' log', authLoop O prov (n + 2) es m log =
+        some (es.map (fun e => caVerdict O prov e m == .ok), m', log') ∧ Ext prov (fun _ => True) m m' := by
+  induction es generalizing m log with
   | nil => exact ⟨m, log, by simp [authLoop], Ext.refl prov _ m⟩
   | cons e es ih =>
     unfold authLoop
@@ -257,65 +233,37 @@ theorem authLoop_contract {P} (O : Oracles P) (hidem : AddIdem O) (prov : Option
     have hext : Ext prov (fun _ => True) m m1 := hext0.mono (fun _ _ => trivial)
     rw [hc]
     have hrest : ∀ x, caVerdict O prov x m1 = caVerdict O prov x m := fun x => caVerdict_ext O hext x
-    have hfilter : es.filter (fun x => caVerdict O prov x m1 != .ok) = es.filter (fun x => caVerdict O prov x m != .ok) := by
+    have hmap : es.map (fun x => caVerdict O prov x m1 == .ok) = es.map (fun x => caVerdict O prov x m == .ok) := by
       congr 1; funext x; rw [hrest]
+    obtain ⟨m2, log2, h2, he2⟩ := ih m1 log1
     cases hv : caVerdict O prov e m with
-    | ok =>
-      obtain ⟨m2, log2, h2, he2⟩ := ih m1 log1 failed
-      refine ⟨m2, log2, ?_, hext.trans he2⟩
-      simp only [h2, hfilter, List.filter_cons, hv]
-      rfl
     | outOfFuel =>
       exfalso
       unfold caVerdict at hv
       split at hv
       · cases hv
       · split at hv <;> cases hv
-    | notAllowed =>
-      obtain ⟨m2, log2, h2, he2⟩ := ih m1 log1 (failed ++ [e.eventID])
-      refine ⟨m2, log2, ?_, hext.trans he2⟩
-      simp only [h2, hfilter, List.filter_cons, hv]
-      simp
-    | addErr =>
-      obtain ⟨m2, log2, h2, he2⟩ := ih m1 log1 (failed ++ [e.eventID])
-      refine ⟨m2, log2, ?_, hext.trans he2⟩
-      simp only [h2, hfilter, List.filter_cons, hv]
-      simp
+    | ok => exact ⟨m2, log2, by simp [hv, h2, hmap], hext.trans he2⟩
+    | notAllowed => exact ⟨m2, log2, by simp [hv, h2, hmap], hext.trans he2⟩
+    | addErr => exact ⟨m2, log2, by simp [hv, h2, hmap], hext.trans he2⟩
 
-/-- an event's ID is among the failures iff some event of the response with that ID fails one of the two checks -/
-theorem failed_contains {P} (O : Oracles P) (prov : Option EventProvider) (all : List Event)
-    (verdict : Event → CAOut) (hv : ∀ e, verdict e = if O.allowedBy e (authOf O (resolve (verified O all) prov) e) then .ok else .notAllowed)
-    (id : Bytes) :
-    (sigFailIDs O all ++ (all.filter (fun e => verdict e != .ok)).map (·.eventID)).contains id = dropped O prov all id := by
-  unfold dropped good
-  rw [Bool.eq_iff_iff]
-  simp only [List.contains_iff_mem, List.mem_append, List.mem_map, List.mem_filter, List.any_eq_true, Bool.and_eq_true,
-    beq_iff_eq, Bool.not_eq_true']
-  have hs : id ∈ sigFailIDs O all ↔ ∃ e ∈ all, e.eventID = id ∧ O.sigOk e = false := by
-    have := sigFail_contains O all id
-    rw [Bool.eq_iff_iff] at this
-    simpa [List.any_eq_true] using this
-  rw [hs]
-  constructor
-  · rintro (⟨e, he, hid, hsig⟩ | ⟨e, ⟨he, hver⟩, hid⟩)
-    · exact ⟨e, he, hid, by simp [hsig]⟩
-    · refine ⟨e, he, hid, ?_⟩
-      rw [hv e] at hver
-      cases hal : O.allowedBy e (authOf O (resolve (verified O all) prov) e)
-      · simp
-      · simp [hal] at hver
-  · rintro ⟨e, he, hid, hbad⟩
-    cases hsig : O.sigOk e
-    · exact Or.inl ⟨e, he, hid, hsig⟩
-    · right
-      refine ⟨e, ⟨he, ?_⟩, hid⟩
-      rw [hv e]
-      simp only [hsig, Bool.true_and] at hbad
-      simp [hbad]
+theorem keepBy_map (l : List Event) (f : Event → Bool) : keepBy l (l.map f) = l.filter f := by
+  induction l with
+  | nil => rfl
+  | cons e es ih =>
+    simp only [List.map_cons, keepBy, List.filter_cons, ih]
+
+theorem zipWith_map_right {α β γ} (f : α → β → γ) (g : α → β) (l : List α) :
+    List.zipWith f l (l.map g) = l.map (fun a => f a (g a)) := by
+  induction l with
+  | nil => rfl
+  | cons a as ih => simp [ih]
 
 /-- `state_response_exact`: under the provider contract CheckStateResponse returns exactly the two input
-    lists filtered by `good e := sigOk e ∧ allowedBy e (verified-or-provided auth events of e)` (events are
-    dropped by event ID), it fails exactly on a malformed response, and it always terminates (fuel 2). -/
+    lists filtered by `good e := sigOk e ∧ allowedBy e (verified-or-provided auth events of e)` — EXACTLY
+    the events failing one of the two checks are dropped, each on its own account (an event that shares
+    its ID with a failing one stays) —, it fails exactly on a malformed response, and it always
+    terminates (fuel 2). -/
 theorem state_response_exact {P} (O : Oracles P) (hidem : AddIdem O) (prov : Option EventProvider) (hprov : ProvOK prov)
     (n : Nat) (A S : List Event) (log : Log) :
     (checkStateResponse O prov (n + 2) A S log).1 =
@@ -355,72 +303,67 @@ theorem state_response_exact {P} (O : Oracles P) (hidem : AddIdem O) (prov : Opt
       · rw [List.any_eq_false] at hS
         have := hS e hm
         cases hs : e.stateKey <;> simp_all
-    obtain ⟨m', log', hl, _⟩ := authLoop_contract O hidem prov hprov n (A ++ S) (verifiedMap O (A ++ S)) log (sigFailIDs O (A ++ S))
+    obtain ⟨m', log', hl, _⟩ := authLoop_contract O hidem prov hprov n (A ++ S) (verifiedMap O (A ++ S)) log
     rw [hl]
     simp only
-    have hfc := failed_contains O prov (A ++ S) (fun e => caVerdict O prov e (verifiedMap O (A ++ S)))
-      (fun e => caVerdict_of_lookup O prov _ _ (verifiedMap_lookup O (A ++ S)) hsk e)
-    congr 1
-    · apply List.filter_congr
-      intro e _
-      rw [hfc]
-    · apply List.filter_congr
-      intro e _
-      rw [hfc]
+    have hgood : ∀ e, (O.sigOk e && (caVerdict O prov e (verifiedMap O (A ++ S)) == .ok)) = good O prov (A ++ S) e := by
+      intro e
+      rw [caVerdict_of_lookup O prov _ _ (verifiedMap_lookup O (A ++ S)) hsk e]
+      unfold good
+      cases O.allowedBy e (authOf O (resolve (verified O (A ++ S)) prov) e) <;> simp
+    rw [zipWith_map_right]
+    have hfun : (fun a => O.sigOk a && (caVerdict O prov a (verifiedMap O (A ++ S)) == .ok)) = good O prov (A ++ S) :=
+      funext hgood
+    rw [hfun, List.map_append, List.take_left' (by simp), List.drop_left' (by simp), keepBy_map, keepBy_map]
   · simp only [if_true]
     obtain ⟨log', h⟩ := (state_response_fails_iff O prov (n + 2) A S log).mpr hmal
     rw [h]
 
 /-- The property's wording: every event CheckStateResponse returns has verified signatures and is allowed by
     those of its auth events that arrived with verified signatures or were obtained from the caller's
-    provider; and an input event is absent from the output only if some event with its ID fails a check. -/
+    provider; and an input event is absent from the output only if IT fails one of the two checks
+    ("exactly the events failing one of these two checks are dropped"). -/
 theorem state_response_sound {P} (O : Oracles P) (hidem : AddIdem O) (prov : Option EventProvider) (hprov : ProvOK prov)
     (n : Nat) (A S A' S' : List Event) (log : Log) (h : (checkStateResponse O prov (n + 2) A S log).1 = .ok A' S') :
     (∀ e ∈ A' ++ S', (e ∈ A ++ S) ∧ O.sigOk e = true ∧ O.allowedBy e (authOf O (resolve (verified O (A ++ S)) prov) e) = true) ∧
-    (∀ e ∈ A, e ∉ A' → ∃ x ∈ A ++ S, x.eventID = e.eventID ∧ good O prov (A ++ S) x = false) ∧
-    (∀ e ∈ S, e ∉ S' → ∃ x ∈ A ++ S, x.eventID = e.eventID ∧ good O prov (A ++ S) x = false) := by
+    (∀ e ∈ A, e ∉ A' → good O prov (A ++ S) e = false) ∧
+    (∀ e ∈ S, e ∉ S' → good O prov (A ++ S) e = false) := by
   rw [state_response_exact O hidem prov hprov] at h
   unfold stateResponse at h
   cases hmal : responseMalformed A S
   · simp only [hmal, Bool.false_eq_true, if_false] at h
     cases h
-    · have ha : A.filter (fun e => !dropped O prov (A ++ S) e.eventID) = A.filter (fun e => !dropped O prov (A ++ S) e.eventID) := rfl
-      have hs : S.filter (fun e => !dropped O prov (A ++ S) e.eventID) = S.filter (fun e => !dropped O prov (A ++ S) e.eventID) := rfl
-      have hkeep : ∀ e : Event, e ∈ A ++ S → dropped O prov (A ++ S) e.eventID = false → good O prov (A ++ S) e = true := by
-        intro e he hd
-        unfold dropped at hd
-        rw [List.any_eq_false] at hd
-        have := hd e he
-        simpa using this
-      have hdrop : ∀ e : Event, dropped O prov (A ++ S) e.eventID = true → ∃ x ∈ A ++ S, x.eventID = e.eventID ∧ good O prov (A ++ S) x = false := by
-        intro e hd
-        unfold dropped at hd
-        rw [List.any_eq_true] at hd
-        obtain ⟨x, hx, hb⟩ := hd
-        simp only [Bool.and_eq_true, beq_iff_eq, Bool.not_eq_true'] at hb
-        exact ⟨x, hx, hb.1, hb.2⟩
-      refine ⟨fun e he => ?_, fun e he hne => ?_, fun e he hne => ?_⟩
-      · rw [List.mem_append] at he
-        have hmem : e ∈ A ++ S ∧ dropped O prov (A ++ S) e.eventID = false := by
-          rcases he with he | he
-          · rw [← ha, List.mem_filter] at he
-            exact ⟨List.mem_append_left _ he.1, by simpa using he.2⟩
-          · rw [← hs, List.mem_filter] at he
-            exact ⟨List.mem_append_right _ he.1, by simpa using he.2⟩
-        have hg := hkeep e hmem.1 hmem.2
-        unfold good at hg
-        simp only [Bool.and_eq_true] at hg
-        exact ⟨hmem.1, hg.1, hg.2⟩
-      · apply hdrop
-        cases hd : dropped O prov (A ++ S) e.eventID
-        · exfalso; apply hne; rw [← ha, List.mem_filter]; exact ⟨he, by simp [hd]⟩
-        · rfl
-      · apply hdrop
-        cases hd : dropped O prov (A ++ S) e.eventID
-        · exfalso; apply hne; rw [← hs, List.mem_filter]; exact ⟨he, by simp [hd]⟩
-        · rfl
+    refine ⟨fun e he => ?_, fun e he hne => ?_, fun e he hne => ?_⟩
+    · rw [List.mem_append] at he
+      have hmem : e ∈ A ++ S ∧ good O prov (A ++ S) e = true := by
+        rcases he with he | he
+        · rw [List.mem_filter] at he
+          exact ⟨List.mem_append_left _ he.1, he.2⟩
+        · rw [List.mem_filter] at he
+          exact ⟨List.mem_append_right _ he.1, he.2⟩
+      have hg := hmem.2
+      unfold good at hg
+      simp only [Bool.and_eq_true] at hg
+      exact ⟨hmem.1, hg.1, hg.2⟩
+    · cases hg : good O prov (A ++ S) e
+      · rfl
+      · exact absurd (List.mem_filter.mpr ⟨he, hg⟩) hne
+    · cases hg : good O prov (A ++ S) e
+      · rfl
+      · exact absurd (List.mem_filter.mpr ⟨he, hg⟩) hne
   · simp only [hmal, if_true] at h
     cases h
+
+/-- the witness of finding R3, abstractly: a good event and a same-ID copy whose signature fails.  The
+    specification keeps the good one; the by-ID bookkeeping the code had before the repair dropped both. -/
+example {P} (O : Oracles P) (prov : Option EventProvider) (g t : Event) (hid : t.eventID = g.eventID)
+    (hg : O.sigOk g = true) (ht : O.sigOk t = false) :
+    droppedByID O prov [g, t] g.eventID = true ∧ good O prov [g, t] t = false := by
+  constructor
+  · unfold droppedByID goodByID
+    simp [hid, ht]
+  · unfold good
+    simp [ht]
 
 /-! ## CheckSendJoinResponse -/
 
@@ -597,9 +540,23 @@ theorem lookup_map_kvs (kvs : List (Bytes × Event)) (id : Bytes) :
       have h2 : (kv.1 == id) = false := by simpa using fun h' => h h'.symm
       simp [List.lookup, h1, h2, ih]
 
+theorem addAll_none_of_nonstate {P} (O : Oracles P) (S : List Event) (acc : P) (h : S.any (fun e => e.stateKey.isNone) = true) :
+    addAll O S acc = none := by
+  induction S generalizing acc with
+  | nil => simp at h
+  | cons e es ih =>
+    unfold addAll
+    cases hs : e.stateKey with
+    | none => simp
+    | some sk =>
+      simp only [Option.isSome_some, if_true]
+      apply ih
+      simpa [hs] using h
+
 /-- `at_state_iff`: VerifyAuthRulesAtState accepts exactly when (validation is permitted and every auth
-    event ID of the event is among the state IDs before it) or the event is allowed by the state before it;
-    a failing provider call is reported as such; the check always terminates. -/
+    event ID of the event is among the state IDs before it) or the event is allowed by THE STATE before it —
+    every event of the returned state takes part, whether or not the event cites it —; a failing provider
+    call is reported as such; the check always terminates. -/
 theorem at_state_iff {P} (O : Oracles P) (sp : StateProvider) (e : Event) (allow : Bool) (log : Log) :
     (verifyAuthRulesAtState O sp e allow log).1 ≠ .outOfFuel ∧
     asCoarse (verifyAuthRulesAtState O sp e allow log).1 = atState O sp e allow ∧
@@ -618,30 +575,50 @@ theorem at_state_iff {P} (O : Oracles P) (sp : StateProvider) (e : Event) (allow
       | none => simp [asCoarse]
       | some kvs =>
         simp only
-        obtain ⟨m', log', hc, _⟩ := checkAllowed_noProvider O 0 e (kvs.map (fun kv => (kv.1, some kv.2))) (log ++ [.stateIDs e.eventID] ++ [.state e.eventID])
-        simp only [Nat.zero_add] at hc
-        rw [hc]
-        have hlk := lookup_map_kvs kvs
-        have hbad : e.authEventIDs.any (badIn (kvs.map (fun kv => (kv.1, some kv.2)))) =
-            e.authEventIDs.any (fun id => match stateLookup kvs id with
-              | some a => a.stateKey.isNone
-              | none => false) := by
-          congr 1; funext id
-          unfold badIn
-          rw [hlk id]
-          cases stateLookup kvs id <;> rfl
-        have hres : resM none (kvs.map (fun kv => (kv.1, some kv.2))) = stateLookup kvs := by
-          funext id
-          unfold resM
-          rw [hlk id]
-          cases stateLookup kvs id <;> rfl
-        unfold caVerdict
-        rw [hbad, hres]
-        cases hb : e.authEventIDs.any (fun id => match stateLookup kvs id with
-              | some a => a.stateKey.isNone
-              | none => false)
-        · cases hal : O.allowedBy e (authOf O (stateLookup kvs) e) <;> simp [asCoarse, hal]
-        · simp [asCoarse]
+        cases hns : kvs.any (fun kv => kv.2.stateKey.isNone)
+        · have hall : ∀ x ∈ kvs.map (·.2), x.stateKey.isSome = true := by
+            intro x hx
+            obtain ⟨kv, hkv, rfl⟩ := List.mem_map.mp hx
+            have := (List.any_eq_false.mp hns) kv hkv
+            cases hs : kv.2.stateKey <;> simp_all
+          rw [addAll_of_stateKeys O _ O.empty hall]
+          simp only [stateProviderOf, Bool.false_eq_true, if_false]
+          cases hal : O.allowedBy e ((kvs.map (·.2)).foldl O.add O.empty) <;> simp [asCoarse]
+        · have : (kvs.map (·.2)).any (fun x => x.stateKey.isNone) = true := by
+            rw [List.any_map]; exact hns
+          rw [addAll_none_of_nonstate O _ O.empty this]
+          simp [asCoarse]
+
+/-- What the check computed before the repair of finding R1 differs from the specification exactly through
+    the state events the event does not cite.  Abstract witness: the state holds a power-levels event `pl`
+    that refuses `e`; `e` cites nothing.  The old definition (`atStateCited`) accepts, the specification and
+    the model refuse. -/
+example (pl e : Event) (hpl : pl.stateKey = some []) (he : e.authEventIDs = []) :
+    let O : Oracles (List Event) := { sigOk := fun _ => true, empty := [], add := fun p a => a :: p, allowedBy := fun _ p => p.isEmpty }
+    let sp : StateProvider := { ids := fun _ => some [], state := fun _ _ => some [(pl.eventID, pl)] }
+    atStateCited O sp e false = some true ∧ atState O sp e false = some false ∧
+      (verifyAuthRulesAtState O sp e false []).1 = .notAllowed := by
+  simp [atStateCited, atState, verifyAuthRulesAtState, atStateSlow, addAll, stateLookup, citesNonState, authOf, stateProviderOf, he, hpl]
+
+/-- where the event cites exactly the state, the two readings agree -/
+theorem atStateCited_eq {P} (O : Oracles P) (sp : StateProvider) (e : Event) (allow : Bool)
+    (hcite : ∀ ids kvs, sp.ids e = some ids → sp.state e ids = some kvs →
+      kvs.any (fun kv => kv.2.stateKey.isNone) = false ∧ authOf O (stateLookup kvs) e = stateProviderOf O (kvs.map (·.2)) ∧
+      citesNonState kvs e = false) :
+    atStateCited O sp e allow = atState O sp e allow := by
+  unfold atStateCited atState
+  cases hids : sp.ids e with
+  | none => rfl
+  | some ids =>
+    simp only
+    split
+    · rfl
+    · cases hst : sp.state e ids with
+      | none => rfl
+      | some kvs =>
+        obtain ⟨h1, h2, h3⟩ := hcite ids kvs hids hst
+        simp only [h1, h3, Bool.false_eq_true, if_false]
+        rw [h2]
 
 /-! ## EventsLoader.LoadAndVerify -/
 
@@ -783,24 +760,27 @@ example : layout 2 0 [⟨.ok, some default⟩] = [⟨.ok, some default⟩, empty
 
 /-! ## VerifyEventAuthChain -/
 
-/-- `auth_chain_iff`: against a provider that is a table of events keyed by their own IDs (`errs id`: asking
-    for `id` makes the call fail), VerifyEventAuthChain — whenever its loop finishes within the fuel —
-    accepts EXACTLY when the event and, recursively, every auth event the provider supplies for it
+/-- `auth_chain_iff`: against a provider that answers from a table of events keyed by their own IDs (`errs id`:
+    asking for `id` makes the call fail; `TableLike`: single-ID requests are answered exactly, batch answers
+    may LEAVE EVENTS OUT — a limit per call, say), VerifyEventAuthChain — whenever its loop finishes within
+    the fuel — accepts EXACTLY when the event and, recursively, every auth event the provider supplies for it
     (`Reach`) passes: no needed ID makes the provider fail, every resolved auth event is a state event,
-    and the event is allowed by its resolved auth events (`chainGood`).  No acyclicity is needed: the
+    and the event is allowed by its resolved auth events (`chainGood`) — whichever request (the batch request
+    or the single-ID retry of checkAllowedByAuthEvents) obtained the auth event.  No acyclicity is needed: the
     `verifiedEvents` set and the lookup table make the loop skip events it has seen (a cycle of mutually
     citing events is verified once each).  IDs the provider has nothing for are simply left out of the auth
     events handed to `Allowed` — "failing to provide all the requested events will fail this function"
     (authchain.go) holds only in so far as `Allowed` then refuses. -/
 theorem auth_chain_iff {P} (O : Oracles P) (hidem : AddIdem O) (root : Event) (table : Bytes → Option Event) (errs : Bytes → Bool)
+    (prov : EventProvider) (htl : TableLike table errs prov)
     (htable : ∀ id e, table id = some e → e.eventID = id) (n fuel : Nat) (log : Log)
-    (hfuel : (verifyEventAuthChain O (tableProvider table errs) (n + 2) fuel root log).1 ≠ .outOfFuel) :
-    (verifyEventAuthChain O (tableProvider table errs) (n + 2) fuel root log).1 = .ok ↔
+    (hfuel : (verifyEventAuthChain O prov (n + 2) fuel root log).1 ≠ .outOfFuel) :
+    (verifyEventAuthChain O prov (n + 2) fuel root log).1 = .ok ↔
       ∀ e, Reach root table e → chainGood O root table errs e = true := by
-  have hp := chainLoop_post O root table errs hidem htable n fuel
+  have hp := chainLoop_post O root table errs hidem htl htable n fuel
     { stack := [root], m := [(root.eventID, some root)], verified := [] } log (chainInv_init O root table errs)
   unfold verifyEventAuthChain at hfuel ⊢
-  cases hv : (chainLoop O (tableProvider table errs) (n + 2) fuel { stack := [root], m := [(root.eventID, some root)], verified := [] } log).1 with
+  cases hv : (chainLoop O prov (n + 2) fuel { stack := [root], m := [(root.eventID, some root)], verified := [] } log).1 with
   | ok =>
     rw [hv] at hp
     exact ⟨fun _ => hp, fun _ => rfl⟩
@@ -813,6 +793,25 @@ theorem auth_chain_iff {P} (O : Oracles P) (hidem : AddIdem O) (root : Event) (t
     rw [hv] at hp
     obtain ⟨e, hr, hg⟩ := hp
     exact ⟨fun h => (by cases h), fun h => (by rw [h e hr] at hg; cases hg)⟩
+
+/-- the provider that returns everything it has for a request -/
+theorem auth_chain_iff_table {P} (O : Oracles P) (hidem : AddIdem O) (root : Event) (table : Bytes → Option Event) (errs : Bytes → Bool)
+    (htable : ∀ id e, table id = some e → e.eventID = id) (n fuel : Nat) (log : Log)
+    (hfuel : (verifyEventAuthChain O (tableProvider table errs) (n + 2) fuel root log).1 ≠ .outOfFuel) :
+    (verifyEventAuthChain O (tableProvider table errs) (n + 2) fuel root log).1 = .ok ↔
+      ∀ e, Reach root table e → chainGood O root table errs e = true :=
+  auth_chain_iff O hidem root table errs _ (tableProvider_tableLike table errs) htable n fuel log hfuel
+
+/-- a provider that hands out at most k + 1 events per call (finding R2: what the batch request leaves out
+    reaches the lookup table through the single-ID retry, and is verified all the same): the verdict is the
+    one of the complete table -/
+theorem auth_chain_iff_capped {P} (O : Oracles P) (hidem : AddIdem O) (root : Event) (table : Bytes → Option Event) (errs : Bytes → Bool)
+    (htable : ∀ id e, table id = some e → e.eventID = id) (hstate : ∀ id e, table id = some e → e.stateKey.isSome = true)
+    (k n fuel : Nat) (log : Log)
+    (hfuel : (verifyEventAuthChain O (capProvider table errs (k + 1)) (n + 2) fuel root log).1 ≠ .outOfFuel) :
+    (verifyEventAuthChain O (capProvider table errs (k + 1)) (n + 2) fuel root log).1 = .ok ↔
+      ∀ e, Reach root table e → chainGood O root table errs e = true :=
+  auth_chain_iff O hidem root table errs _ (capProvider_tableLike table errs k hstate) htable n fuel log hfuel
 
 /-! ## RequestBackfill
 
